@@ -113,6 +113,11 @@ def extract():
         except Exception as e:
             problems.append("%s: pattern not found: %r" % (key, e))
             t[key] = dflt
+    try:
+        t.update(_export_ref_value())
+    except Exception as e:
+        problems.append("exportRefValue: pattern not found: %r" % e)
+        t.update({"exportRefValueOrder": [], "exportLiteralTypes": [], "exportLiteralTest": "unknown"})
 
     return t, problems
 
@@ -229,6 +234,85 @@ def _export_dummy_for():
     if not res:
         raise ValueError("no dummy assignment loop")
     return res
+
+
+def _export_ref_value():
+    """ParentTranslator.ref_value (exporter.py): how a reference value is written.
+    -> exportRefValueOrder: the branches of the if/elif chain in source order
+         ("interface": a modelx object -> relative attribute path, "literal": pprint.pformat,
+          "module": import_module, "data": IO data or the pickled dict);
+       exportLiteralTypes: the types written as source literals;
+       exportLiteralTest: how membership is tested - "exact" (`type(value) is t` / `type(value) in`)
+         or "isinstance" (which also admits instances of subclasses)."""
+    cls = _class(_parse("modelx/export/exporter.py"), "ParentTranslator")
+    fn = _method(cls, "ref_value")
+    lits = None
+    chain = None
+    for st in fn.body:
+        if isinstance(st, ast.Assign) and len(st.targets) == 1 and _src_of(st.targets[0]) == "literal_types":
+            if not isinstance(st.value, (ast.List, ast.Tuple)):
+                raise ValueError("literal_types is not a list/tuple display")
+            lits = []
+            for e in st.value.elts:
+                src = _src_of(e)
+                if isinstance(e, ast.Name):
+                    lits.append(e.id)
+                elif src == "type(None)":
+                    lits.append("NoneType")
+                else:
+                    raise ValueError("unknown literal type " + src)
+        elif isinstance(st, ast.If):
+            if chain is not None:
+                raise ValueError("more than one if statement")
+            chain = st
+        elif isinstance(st, ast.Expr) and isinstance(st.value, ast.Constant):
+            pass
+        else:
+            raise ValueError("unknown statement " + _src_of(st)[:60])
+    if lits is None or chain is None:
+        raise ValueError("literal_types / if chain not found")
+
+    def ret(body):
+        if len(body) == 1 and isinstance(body[0], ast.Return):
+            return _src_of(body[0].value)
+        return None
+    order, test = [], None
+    node = chain
+    while True:
+        src = _src_of(node.test)
+        if src == "isinstance(value, Interface)":
+            inner = node.body
+            ok = (len(inner) == 1 and isinstance(inner[0], ast.If) and _src_of(inner[0].test) == "value._is_valid()"
+                  and ret(inner[0].orelse) == "'None'" and isinstance(inner[0].body[-1], ast.Return)
+                  and _src_of(inner[0].body[-1].value) == "'.'.join(attrs)")
+            if not ok:
+                raise ValueError("interface branch changed")
+            order.append("interface")
+        elif src in ("any((type(value) is t for t in literal_types))", "type(value) in literal_types"):
+            test = "exact"
+            order.append("literal")
+        elif src in ("isinstance(value, literal_types)", "isinstance(value, tuple(literal_types))",
+                     "any((isinstance(value, t) for t in literal_types))"):
+            test = "isinstance"
+            order.append("literal")
+        elif src == "isinstance(value, types.ModuleType) and value in sys.modules.values()":
+            if ret(node.body) != "\"_mx_sys.import_module('\" + value.__name__ + \"')\"":
+                raise ValueError("module branch changed: %r" % ret(node.body))
+            order.append("module")
+        else:
+            raise ValueError("unknown test " + src[:80])
+        if order[-1] == "literal" and ret(node.body) != "pprint.pformat(value)":
+            raise ValueError("literal branch changed")
+        if len(node.orelse) == 1 and isinstance(node.orelse[0], ast.If):
+            node = node.orelse[0]
+            continue
+        if ret(node.orelse) != "self.io_manager.get_code(value)":
+            raise ValueError("else branch changed")
+        order.append("data")
+        break
+    if test is None:
+        raise ValueError("no literal branch")
+    return {"exportRefValueOrder": order, "exportLiteralTypes": lits, "exportLiteralTest": test}
 
 
 def _chain_elems(call):
@@ -467,6 +551,12 @@ def render(t):
         "def mxNamespaceOrder : List String := " + _lean_str_list(t["mxNamespaceOrder"]),
         "def mxDynRefsOrder : List String := " + _lean_str_list(t["mxDynRefsOrder"]),
         "def mxAllargsOrder : List String := " + _lean_str_list(t["mxAllargsOrder"]),
+        "/-- exporter.py ParentTranslator.ref_value: branches in source order -/",
+        "def exportRefValueOrder : List String := " + _lean_str_list(t["exportRefValueOrder"]),
+        "/-- the types whose instances are written as source literals -/",
+        "def exportLiteralTypes : List String := " + _lean_str_list(t["exportLiteralTypes"]),
+        "/-- how membership in them is tested: \"exact\" (type(value) is t) or \"isinstance\" -/",
+        "def exportLiteralTest : String := \"%s\"" % t["exportLiteralTest"],
         "end MxModel.Generated",
         "",
     ]
